@@ -111,6 +111,7 @@ type c04Outcome struct {
 	acks     map[string][]c04Ack
 	pubs     []*c04Pub
 	hwMarks  []string // "hw-advanced …" findings of settle points below min ISR
+	truthMarks []string // HW advances beyond what an in-sync replica reported
 	isrSize  int
 	minISR   int
 	events   []string // model events
@@ -418,6 +419,30 @@ func (r *c04Runner) run(lines []string) (out *c04Outcome, err error) {
 		default:
 		}
 	}
+	// What every follower REALLY stores, as far as the harness has said so on its behalf (`progress`):
+	// monotone, -1 before the first report, untouched by shrink / expand (a replica re-added to the
+	// ISR stores what it stored before). Whenever the HW ADVANCES it must not pass what some current
+	// ISR member stores: beyond that offset an ALL ack promises more than the in-sync set holds.
+	truth := map[int]int64{}
+	for i := 1; i < 8; i++ {
+		truth[i] = -1
+	}
+	hwSeen := int64(-1)
+	hwTruthCheck := func(when string) {
+		hw := p.log.HighWatermark()
+		if hw <= hwSeen {
+			return
+		}
+		for i := range isrNow {
+			if i == 0 {
+				continue
+			}
+			if truth[i] < hw {
+				out.truthMarks = append(out.truthMarks, fmt.Sprintf("after %q: HW advanced %d -> %d although in-sync replica %s has only reported offsets up to %d", when, hwSeen, hw, replicaName(i), truth[i]))
+			}
+		}
+		hwSeen = hw
+	}
 	settle := func() {
 		// wait until the open batch (if any) must have been dispatched and the acks we can expect arrived
 		deadline := time.Now().Add(5 * time.Second)
@@ -574,6 +599,7 @@ func (r *c04Runner) run(lines []string) (out *c04Outcome, err error) {
 			flushBurst()
 			settle()
 			hw0 := p.log.HighWatermark()
+			hwTruthCheck(line + " (before)")
 			out.events = append(out.events, "dispatch", "commit")
 			switch f[0] {
 			case "progress":
@@ -599,8 +625,20 @@ func (r *c04Runner) run(lines []string) (out *c04Outcome, err error) {
 				}
 				signal()
 			}
+			if f[0] == "progress" {
+				if i := replicaIdx(f[1]); i > 0 {
+					off := p.log.NewestOffset()
+					if f[2] != "newest" {
+						off, _ = strconv.ParseInt(f[2], 10, 64)
+					}
+					if off > truth[i] {
+						truth[i] = off
+					}
+				}
+			}
 			if f[0] != "settle" {
 				time.Sleep(30 * time.Millisecond)
+				hwTruthCheck(line)
 				if len(isrNow) < minISR && p.log.HighWatermark() != hw0 {
 					out.hwMarks = append(out.hwMarks, fmt.Sprintf("after %q: HW %d -> %d with ISR size %d < min ISR %d", line, hw0, p.log.HighWatermark(), len(isrNow), minISR))
 				}
@@ -745,6 +783,9 @@ func c04Oracle(lines []string, o *c04Outcome) []c04Finding {
 	}
 	for _, m := range o.hwMarks {
 		add("hw-advanced-below-min-isr", "%s", m)
+	}
+	for _, m := range o.truthMarks {
+		add("hw-beyond-isr-progress", "%s", m)
 	}
 	if o.hw > o.newest {
 		add("hw-beyond-log-end", "HW %d > newest offset %d", o.hw, o.newest)
